@@ -74,8 +74,10 @@ def record_fick(data, want=("steps", "dec", "chk", "trace")):
     out = {"parse": "ok", "steps": [], "step_exc": "", "dec": {"ok": False, "exc": "not-run", "reask_differs": False},
            "run": {"ok": False, "ev": [], "exc": "not-run", "res": {"k": "mark"}, "static": [], "has_static": False},
            "chk": {"ran": False, "ok": False, "exc": "", "sev": 0, "nfind": 0, "find_ok": True, "maxfind": 0,
-                   "json_ok": False, "sevname_ok": False, "loader_ran": False, "loader_ok": True, "loader_why": ""},
-           "trace": {"ran": False, "ok": False, "exc": "", "ops_ok": False, "same_ast": False, "prefix_ok": True, "prefix_why": ""}}
+                   "json_ok": False, "sevname_ok": False, "loader_ran": False, "loader_ok": True, "loader_why": "",
+                   "inj_ran": False, "inj_sev": 0},
+           "trace": {"ran": False, "ok": False, "exc": "", "ops_ok": False, "same_ast": False, "prefix_ok": True, "prefix_why": "",
+                     "observer_ok": True}}
     try:
         p = fk.Pickled.load(data)
     except BaseException as e:  # noqa: BLE001
@@ -133,6 +135,14 @@ def record_fick(data, want=("steps", "dec", "chk", "trace")):
                  list(p3.properties.non_setstate_calls))
             third = an.check_safety(p3)
             c["sev"] = min(c["sev"], sevnum(an, again.severity), sevnum(an, third.severity))
+            # ... and once more after an eval call was injected into this very object (analysed before the edit): whatever
+            # else the program does, it now calls eval
+            if names and names[-1] == "STOP":
+                try:
+                    p3.insert_python_eval("1", run_first=True, use_output_as_unpickle_result=bool(len(names) % 2))     # (run-first: the call is made whatever the base leaves on the stack)
+                    c["inj_ran"], c["inj_sev"] = True, sevnum(an, an.check_safety(p3).severity)
+                except Exception:  # noqa: BLE001 - the helper or the analysis refuses this program: nothing is claimed
+                    c["inj_ran"] = False
             c["nfind"] = len(res.results)
             fs = [sevnum(an, getattr(f, "severity", None)) for f in res.results]
             c["find_ok"] = all(x >= 0 for x in fs) and all(isinstance(getattr(f, "message", None), str) for f in res.results)
@@ -205,6 +215,16 @@ def record_fick(data, want=("steps", "dec", "chk", "trace")):
         except BaseException as e:  # noqa: BLE001
             t["exc"] = type(e).__name__
             t["why"] = type(e).__name__
+        # tracing the way the command line does for a member of a stack must not change what the object answers afterwards
+        try:
+            p5 = fk.Pickled.load(data)
+            with contextlib.redirect_stdout(io.StringIO()):
+                tr.Trace(fk.Interpreter(p5, first_variable_id=3, result_variable="result1")).run()
+            t["observer_ok"] = _text(p5.ast) == _text(fk.Pickled.load(data).ast)
+        except RecursionError:
+            pass
+        except BaseException:  # noqa: BLE001 - judged by the clauses above
+            pass
         # proper prefixes (no STOP): tracing must still be a passive view of the same interpreter run
         ops_all = list(fk.Pickled.load(data))
         for k in sorted({len(ops_all) - 1, len(ops_all) // 2} - {0}):
